@@ -886,7 +886,7 @@ fn run_once(c: &Case) -> Res {
     let run = RUN.fetch_add(1, Ordering::SeqCst);
     let log_start = PANICS.lock().unwrap().len();
     let case = c.clone();
-    let watchdog = Duration::from_secs(if f18_region(c) { 10 } else { 30 });
+    let watchdog = Duration::from_secs((if f18_region(c) { 10 } else { 30 }) * nvh::load_factor() as u64);
     let (res, prefix) = run_hosts(&cfg, next_uniq(), move |ctx| build(ctx, run, &case), |_| (), watchdog);
     let log: Vec<String> = PANICS.lock().unwrap()[log_start..].to_vec();
     let mine = |m: &String| is_infra(m) && prefix.as_ref().map_or(false, |p| m.contains(p.as_str()));
